@@ -20,7 +20,7 @@ def format_expr(expr: Union[str, ast.AST]) -> str:
 
 
 UNQUOTED_BACKTICK_MATCHER = re.compile(
-    r"(\\\"|\"(?:\\\"|[^\"])*\"|\\'|'(?:\\'|[^'])*'|`)"
+    r"(`[^`]*`|\\\"|\"(?:\\\"|[^\"])*\"|\\'|'(?:\\'|[^'])*'|`)"
 )
 
 
@@ -56,27 +56,22 @@ def sanitize_variable_names(
     sanitized_expr = []
 
     for expr_part in expr_parts:
-        if expr_part == "`":
-            variable_name_parts = []
-            while expr_parts.peek(None) not in ("`", None):
-                variable_name_parts.append(next(expr_parts))
-            variable_name = "".join(variable_name_parts)
-            if expr_parts.peek(None) is None:
-                sanitized_expr.append(f"`{variable_name}")
-            else:
-                next(expr_parts)
-                new_name = sanitize_variable_name(variable_name, env, template=template)
-                if aliases.get(new_name, variable_name) != variable_name:
-                    # Different names can sanitize to the same alias (e.g. `a b`
-                    # and `a+b`); keep them distinct.
-                    base_name, suffix = new_name, 1
-                    while aliases.get(new_name, variable_name) != variable_name:
-                        suffix += 1
-                        new_name = f"{base_name}_{suffix}"
-                    if variable_name in env:
-                        env[new_name] = env[variable_name]
-                aliases[new_name] = variable_name
-                sanitized_expr.append(f" {new_name} ")
+        if len(expr_part) >= 2 and expr_part[0] == expr_part[-1] == "`":
+            # A back-quoted name (matched atomically, so that quotes inside it
+            # are not mistaken for string delimiters).
+            variable_name = expr_part[1:-1]
+            new_name = sanitize_variable_name(variable_name, env, template=template)
+            if aliases.get(new_name, variable_name) != variable_name:
+                # Different names can sanitize to the same alias (e.g. `a b`
+                # and `a+b`); keep them distinct.
+                base_name, suffix = new_name, 1
+                while aliases.get(new_name, variable_name) != variable_name:
+                    suffix += 1
+                    new_name = f"{base_name}_{suffix}"
+                if variable_name in env:
+                    env[new_name] = env[variable_name]
+            aliases[new_name] = variable_name
+            sanitized_expr.append(f" {new_name} ")
         else:
             sanitized_expr.append(expr_part)
 
